@@ -65,6 +65,10 @@ func TestRaceSupplement(t *testing.T) {
 				defer wg.Done()
 				<-start
 				_ = runOp(fresh[k])
+				// every goroutine also encodes and decodes one duration (multi-byte vints) and one long negative
+				// varint per iteration: value kinds that the drawn workload reaches rarely
+				_, _ = c18Value(sc, 22, int64(100000+k*77777+i), primitive.ProtocolVersion5)
+				_, _ = c18Value(sc, 7, -int64(1000+k*31+i), primitive.ProtocolVersion4)
 				for rep := 0; rep < 3; rep++ {
 					for j, op := range all[k] {
 						got[k][j] = runOp(op)
